@@ -40,334 +40,356 @@ func checkC07(w *Worker) {
 		qtys = c07Qty
 	}
 	const today = "2021/01/27"
-	w.Explore("relations", ExploreOpts{ShardDepth: 7}, func(x *Exec) {
-		bi := x.Choose(len(c07Books), "input:book")
-		period := x.Choose(2, "input:period")
-		book := c07Books[bi]
-		genDay := func(date string, max int) absDay {
-			d := absDay{Date: date}
-			n := x.Choose(max+1, "input:entries")
-			for i := 0; i < n; i++ {
-				f := c07Foods[x.Choose(len(c07Foods), "input:food")]
-				q := qtys[x.Choose(len(qtys), "input:qty")]
-				d.Entries = append(d.Entries, absIng{f, q})
-			}
-			return d
-		}
-		lg := absLog{genDay("2021/01/24", max1)}
-		d2 := genDay("2021/01/25", max2)
-		sameDate := false
-		if len(d2.Entries) > 0 {
-			if x.Choose(2, "input:samedate") == 1 {
-				d2.Date = "2021/01/24"
-				sameDate = true
-			}
-		}
-		lg = append(lg, d2)
-		files := map[string]string{"food.yaml": renderBook(book), "log.yaml": renderLog(lg)}
-		var pflags []string
-		selDate := ""
-		if period == 1 {
-			selDate = d2.Date
-			pflags = []string{"-b", selDate, "-e", selDate}
-		}
-		x.Case(fmt.Sprintf("%d|%d|%s", bi, period, lg), len(lg[0].Entries)+len(lg[1].Entries) >= 2)
-		var obs []string
-		failed := false
-		run := func(args ...string) AppRun {
-			a := append([]string{"--no-color", "--today", today}, pflags...)
-			a = append(a, args...)
-			c := appCase{Args: a, Files: files}
-			r := runApp(c)
-			obs = append(obs, r.Key())
-			if r.Failed || r.Panic != "" {
-				failed = true
-				x.Violate("C07|"+args[0]+"|command-failed", fmt.Sprintf("`%s` failed: %s", c.shell(), r.String()), map[string]interface{}{"cmd": c.shell()})
-			}
-			return r
-		}
-		ctx := "book {" + book.String() + "} log {" + lg.String() + "} period " + strings.Join(pflags, " ")
-		viol := func(rel, msg string) {
-			x.Violate("C07|"+rel, ctx+"\n"+msg, map[string]interface{}{"files": files, "period_flags": pflags, "relation": rel})
-		}
-		// ---- totals vs register vs single-element register vs bal -s
-		totOut := run("report", "totals")
-		regOut := run("reg")
-		if failed {
-			return
-		}
-		tot, _, err := parseTotals(totOut.Stdout)
-		if err != nil {
-			viol("totals-unparseable", err.Error()+"\n"+totOut.Stdout)
-			return
-		}
-		days, err := parseRegister(regOut.Stdout, "default")
-		if err != nil {
-			viol("register-unparseable", err.Error())
-			return
-		}
-		type pn struct{ pos, neg, sum *big.Rat }
-		sumReg := map[string]*pn{}
-		for _, d := range days {
-			for _, t := range d.Totals {
-				a := sumReg[t.Name]
-				if a == nil {
-					a = &pn{new(big.Rat), new(big.Rat), new(big.Rat)}
-					sumReg[t.Name] = a
+	body := func(large bool) func(x *Exec) {
+		return func(x *Exec) {
+			bi := x.Choose(len(c07Books), "input:book")
+			period := x.Choose(2, "input:period")
+			book := c07Books[bi]
+			genDay := func(date string, max int) absDay {
+				d := absDay{Date: date}
+				n := x.Choose(max+1, "input:entries")
+				for i := 0; i < n; i++ {
+					f := c07Foods[x.Choose(len(c07Foods), "input:food")]
+					q := qtys[x.Choose(len(qtys), "input:qty")]
+					d.Entries = append(d.Entries, absIng{f, q})
 				}
-				a.pos.Add(a.pos, dec(t.Pos))
-				a.neg.Add(a.neg, dec(t.Neg))
-				a.sum.Add(a.sum, dec(t.Sum))
+				return d
 			}
-		}
-		if len(sumReg) != len(tot) {
-			viol("totals-vs-register|element-sets-differ", fmt.Sprintf("report totals lists %d elements, the register's daily totals %d\n%s\n%s", len(tot), len(sumReg), totOut.Stdout, regOut.Stdout))
-			return
-		}
-		for name, t := range tot {
-			a := sumReg[name]
-			if a == nil || !ratEq(a.pos, dec(t.Pos)) || !ratEq(a.neg, dec(t.Neg)) || !ratEq(a.sum, dec(t.Sum)) {
-				viol("totals-vs-register|amounts-differ", fmt.Sprintf("element %s: report totals %v, sum of the register's daily totals %v\n%s\n%s", name, t, a, totOut.Stdout, regOut.Stdout))
-				return
+			var lg absLog
+			var d2 absDay
+			sameDate := false
+			if large {
+				// 60 chronological days of 9..12 entries (wide days, repeats, every food, three quantities): reports far
+				// larger than the 4096-byte buffers
+				for d := 0; d < 60; d++ {
+					day := absDay{Date: fmt.Sprintf("2021/%02d/%02d", 1+d/28, 1+d%28)}
+					for e := 0; e < 9+d%4; e++ {
+						day.Entries = append(day.Entries, absIng{c07Foods[(d+e*3)%len(c07Foods)], c07Qty[(d+e)%len(c07Qty)]})
+						if e%4 == 1 {
+							day.Entries = append(day.Entries, absIng{fmt.Sprintf("bulk/%d/%d", d%7, e), 1})
+						}
+					}
+					lg = append(lg, day)
+				}
+				d2 = lg[1]
+			} else {
+				lg = absLog{genDay("2021/01/24", max1)}
+				d2 = genDay("2021/01/25", max2)
+				if len(d2.Entries) > 0 {
+					if x.Choose(2, "input:samedate") == 1 {
+						d2.Date = "2021/01/24"
+						sameDate = true
+					}
+				}
+				lg = append(lg, d2)
 			}
-		}
-		for _, el := range []string{"cal", "fat"} {
-			sOut := run("reg", "-s", el)
-			bOut := run("bal", "-s", el)
+			files := map[string]string{"food.yaml": renderBook(book), "log.yaml": renderLog(lg)}
+			var pflags []string
+			selDate := ""
+			if period == 1 {
+				selDate = d2.Date
+				pflags = []string{"-b", selDate, "-e", selDate}
+			}
+			x.Case(fmt.Sprintf("%d|%d|%s", bi, period, lg), len(lg[0].Entries)+len(lg[1].Entries) >= 2)
+			var obs []string
+			failed := false
+			run := func(args ...string) AppRun {
+				a := append([]string{"--no-color", "--today", today}, pflags...)
+				a = append(a, args...)
+				c := appCase{Args: a, Files: files}
+				r := runApp(c)
+				obs = append(obs, r.Key())
+				if r.Failed || r.Panic != "" {
+					failed = true
+					x.Violate("C07|"+args[0]+"|command-failed", fmt.Sprintf("`%s` failed: %s", c.shell(), r.String()), map[string]interface{}{"cmd": c.shell()})
+				}
+				return r
+			}
+			ctx := "book {" + book.String() + "} log {" + lg.String() + "} period " + strings.Join(pflags, " ")
+			viol := func(rel, msg string) {
+				x.Violate("C07|"+rel, ctx+"\n"+msg, map[string]interface{}{"files": files, "period_flags": pflags, "relation": rel})
+			}
+			// ---- totals vs register vs single-element register vs bal -s
+			totOut := run("report", "totals")
+			regOut := run("reg")
 			if failed {
 				return
 			}
-			rows, err := parseRegSingle(sOut.Stdout, len("2021/01/24"))
+			tot, _, err := parseTotals(totOut.Stdout)
 			if err != nil {
-				viol("reg-single-unparseable", err.Error())
+				viol("totals-unparseable", err.Error()+"\n"+totOut.Stdout)
 				return
 			}
-			p, n, s := new(big.Rat), new(big.Rat), new(big.Rat)
-			for _, r := range rows {
-				p.Add(p, dec(r.Pos))
-				n.Add(n, dec(r.Neg)) // printed negated
-				s.Add(s, dec(r.Sum))
-			}
-			want, has := tot[el]
-			if !has {
-				want = rTotal{el, "0.00", "0.00", "0.00"}
-			}
-			if !ratEq(p, dec(want.Pos)) || !ratEq(new(big.Rat).Neg(n), dec(want.Neg)) || !ratEq(s, dec(want.Sum)) {
-				viol("totals-vs-reg-single|amounts-differ", fmt.Sprintf("element %s: report totals %v, rows of `reg -s %s`:\n%s", el, want, el, sOut.Stdout))
-				return
-			}
-			b, err := parseBalance(bOut.Stdout)
-			if err != nil || !b.HasTotal {
-				viol("bal-single-unparseable", fmt.Sprintf("%v\n%s", err, bOut.Stdout))
-				return
-			}
-			if !ratEq(dec(b.Total), dec(want.Sum)) {
-				viol("totals-vs-bal-single|grand-total-differs", fmt.Sprintf("element %s: report totals sum %s, `bal -s %s` grand total %s\n%s\n%s", el, want.Sum, el, b.Total, totOut.Stdout, bOut.Stdout))
-				return
-			}
-		}
-		// ---- quantity per food = balance leaves = sums of csv log rows = reg -f rows
-		qOut := run("report", "quantity")
-		balOut := run("bal")
-		csvOut := run("csv", "log")
-		fOut := run("reg", "-f", ".")
-		if failed {
-			return
-		}
-		qrows, err := parseValueName(qOut.Stdout)
-		if err != nil {
-			viol("quantity-unparseable", err.Error())
-			return
-		}
-		q := map[string]*big.Rat{}
-		for _, r := range qrows {
-			if _, dup := q[r.Name]; dup {
-				viol("quantity|food-listed-twice", qOut.Stdout)
-				return
-			}
-			q[r.Name] = dec(r.Val)
-		}
-		b, err := parseBalance(balOut.Stdout)
-		if err != nil {
-			viol("balance-unparseable", err.Error())
-			return
-		}
-		leaves := map[string]*big.Rat{}
-		for i, rw := range b.Rows {
-			if i+1 < len(b.Rows) && b.Rows[i+1].Level > rw.Level {
-				continue
-			}
-			leaves[rw.Path] = dec(rw.Amount)
-		}
-		recs, err := parseCSV(csvOut.Stdout)
-		if err != nil {
-			viol("csv-log-unparseable", err.Error())
-			return
-		}
-		csvSum := map[string]*big.Rat{}
-		for _, rec := range recs {
-			if len(rec) != 3 {
-				viol("csv-log-unparseable", fmt.Sprintf("record %v", rec))
-				return
-			}
-			if csvSum[rec[1]] == nil {
-				csvSum[rec[1]] = new(big.Rat)
-			}
-			csvSum[rec[1]].Add(csvSum[rec[1]], dec(rec[2]))
-		}
-		fSum := map[string]*big.Rat{}
-		for _, line := range splitLines(fOut.Stdout) {
-			p := strings.Split(line, "\t")
-			if len(p) != 3 {
-				viol("reg-single-food-unparseable", line)
-				return
-			}
-			if fSum[p[1]] == nil {
-				fSum[p[1]] = new(big.Rat)
-			}
-			fSum[p[1]].Add(fSum[p[1]], dec(p[2]))
-		}
-		cmpMaps := func(rel string, a, bm map[string]*big.Rat, an, bn string) bool {
-			if len(a) != len(bm) {
-				viol(rel+"|food-sets-differ", fmt.Sprintf("%s has %d foods, %s has %d\n%s\n---\n%s\n---\n%s", an, len(a), bn, len(bm), qOut.Stdout, balOut.Stdout, csvOut.Stdout))
-				return false
-			}
-			for k, v := range a {
-				if o, ok := bm[k]; !ok || !ratEq(v, o) {
-					viol(rel+"|amounts-differ", fmt.Sprintf("food %s: %s says %s, %s says %v", k, an, v.FloatString(3), bn, o))
-					return false
-				}
-			}
-			return true
-		}
-		loggedNames := []string{}
-		for name := range q {
-			loggedNames = append(loggedNames, name)
-		}
-		// leaf amounts are per-food amounts only when no logged food is a path-prefix of another
-		if prefixFree(loggedNames) && !cmpMaps("quantity-vs-balance-leaves", q, leaves, "report quantity", "bal leaves") {
-			return
-		}
-		if !cmpMaps("quantity-vs-csv-log", q, csvSum, "report quantity", "sum of csv log rows") {
-			return
-		}
-		if !cmpMaps("quantity-vs-reg-single-food", q, fSum, "report quantity", "sum of `reg -f .` rows") {
-			return
-		}
-		// ---- unresolved = logged foods the book does not define
-		uOut := run("report", "unresolved")
-		if failed {
-			return
-		}
-		defined := map[string]bool{}
-		for _, r := range book {
-			defined[r.Name] = true
-		}
-		var wantU []string
-		for name := range q {
-			if !defined[name] {
-				wantU = append(wantU, name)
-			}
-		}
-		sort.Strings(wantU)
-		gotU := splitLines(uOut.Stdout)
-		sort.Strings(gotU)
-		if strings.Join(gotU, ",") != strings.Join(wantU, ",") {
-			viol("unresolved-vs-logged-undefined", fmt.Sprintf("report unresolved lists %v; logged foods (report quantity) that the book does not define: %v", gotU, wantU))
-			return
-		}
-		if period == 1 || sameDate {
-			// ---- summary d = register of day d
-			d := selDate
-			if d == "" {
-				d = "2021/01/24"
-			}
-			pf := pflags
-			pflags = nil
-			sOut := run("summary", d)
-			rAll := run("reg", "-b", d, "-e", d)
-			pflags = pf
-			if failed {
-				return
-			}
-			sd, err := parseSummary(sOut.Stdout)
-			if err != nil {
-				viol("summary-unparseable", err.Error())
-				return
-			}
-			rd, err := parseRegister(rAll.Stdout, "default")
+			days, err := parseRegister(regOut.Stdout, "default")
 			if err != nil {
 				viol("register-unparseable", err.Error())
 				return
 			}
-			if summaryString(sd) != summaryString(rd) {
-				viol("summary-vs-register", fmt.Sprintf("summary %s:\n%s\nregister of that day:\n%s", d, sOut.Stdout, rAll.Stdout))
+			type pn struct{ pos, neg, sum *big.Rat }
+			sumReg := map[string]*pn{}
+			for _, d := range days {
+				for _, t := range d.Totals {
+					a := sumReg[t.Name]
+					if a == nil {
+						a = &pn{new(big.Rat), new(big.Rat), new(big.Rat)}
+						sumReg[t.Name] = a
+					}
+					a.pos.Add(a.pos, dec(t.Pos))
+					a.neg.Add(a.neg, dec(t.Neg))
+					a.sum.Add(a.sum, dec(t.Sum))
+				}
+			}
+			if len(sumReg) != len(tot) {
+				viol("totals-vs-register|element-sets-differ", fmt.Sprintf("report totals lists %d elements, the register's daily totals %d\n%s\n%s", len(tot), len(sumReg), totOut.Stdout, regOut.Stdout))
 				return
 			}
-		}
-		if period == 0 {
-			// ---- element-total rows = matching rows of the resolved book CSV
+			for name, t := range tot {
+				a := sumReg[name]
+				if a == nil || !ratEq(a.pos, dec(t.Pos)) || !ratEq(a.neg, dec(t.Neg)) || !ratEq(a.sum, dec(t.Sum)) {
+					viol("totals-vs-register|amounts-differ", fmt.Sprintf("element %s: report totals %v, sum of the register's daily totals %v\n%s\n%s", name, t, a, totOut.Stdout, regOut.Stdout))
+					return
+				}
+			}
 			for _, el := range []string{"cal", "fat"} {
-				eOut := run("report", "element-total", el)
-				dOut := run("csv", "database-resolved")
+				sOut := run("reg", "-s", el)
+				bOut := run("bal", "-s", el)
 				if failed {
 					return
 				}
-				er, err := parseValueName(eOut.Stdout)
+				rows, err := parseRegSingle(sOut.Stdout, len("2021/01/24"))
 				if err != nil {
-					viol("element-total-unparseable", err.Error())
+					viol("reg-single-unparseable", err.Error())
 					return
 				}
-				recs, err := parseCSV(dOut.Stdout)
-				if err != nil {
-					viol("csv-resolved-unparseable", err.Error())
+				p, n, s := new(big.Rat), new(big.Rat), new(big.Rat)
+				for _, r := range rows {
+					p.Add(p, dec(r.Pos))
+					n.Add(n, dec(r.Neg)) // printed negated
+					s.Add(s, dec(r.Sum))
+				}
+				want, has := tot[el]
+				if !has {
+					want = rTotal{el, "0.00", "0.00", "0.00"}
+				}
+				if !ratEq(p, dec(want.Pos)) || !ratEq(new(big.Rat).Neg(n), dec(want.Neg)) || !ratEq(s, dec(want.Sum)) {
+					viol("totals-vs-reg-single|amounts-differ", fmt.Sprintf("element %s: report totals %v, rows of `reg -s %s`:\n%s", el, want, el, sOut.Stdout))
 					return
 				}
-				want := map[string]string{}
-				for _, rec := range recs {
-					if len(rec) == 3 && rec[1] == el {
-						want[rec[0]] = normNum(rec[2])
-					}
+				b, err := parseBalance(bOut.Stdout)
+				if err != nil || !b.HasTotal {
+					viol("bal-single-unparseable", fmt.Sprintf("%v\n%s", err, bOut.Stdout))
+					return
 				}
-				got := map[string]string{}
-				for _, r := range er {
-					got[r.Name] = r.Val
-				}
-				if fmt.Sprint(got) != fmt.Sprint(want) || len(er) != len(want) {
-					viol("element-total-vs-csv-resolved", fmt.Sprintf("element %s: element-total rows %v, rows of csv database-resolved %v", el, got, want))
+				if !ratEq(dec(b.Total), dec(want.Sum)) {
+					viol("totals-vs-bal-single|grand-total-differs", fmt.Sprintf("element %s: report totals sum %s, `bal -s %s` grand total %s\n%s\n%s", el, want.Sum, el, b.Total, totOut.Stdout, bOut.Stdout))
 					return
 				}
 			}
-			// ---- stats: counts of headings, first/last date, day distances from --today
-			stOut := run("stats")
-			prOut := run("print")
+			// ---- quantity per food = balance leaves = sums of csv log rows = reg -f rows
+			qOut := run("report", "quantity")
+			balOut := run("bal")
+			csvOut := run("csv", "log")
+			fOut := run("reg", "-f", ".")
 			if failed {
 				return
 			}
-			st := parseStats(stOut.Stdout)
-			headings := 0
-			for _, line := range splitLines(prOut.Stdout) {
-				if strings.HasSuffix(line, ":") && !strings.HasPrefix(line, " ") {
-					headings++
+			qrows, err := parseValueName(qOut.Stdout)
+			if err != nil {
+				viol("quantity-unparseable", err.Error())
+				return
+			}
+			q := map[string]*big.Rat{}
+			for _, r := range qrows {
+				if _, dup := q[r.Name]; dup {
+					viol("quantity|food-listed-twice", qOut.Stdout)
+					return
+				}
+				q[r.Name] = dec(r.Val)
+			}
+			b, err := parseBalance(balOut.Stdout)
+			if err != nil {
+				viol("balance-unparseable", err.Error())
+				return
+			}
+			leaves := map[string]*big.Rat{}
+			for i, rw := range b.Rows {
+				if i+1 < len(b.Rows) && b.Rows[i+1].Level > rw.Level {
+					continue
+				}
+				leaves[rw.Path] = dec(rw.Amount)
+			}
+			recs, err := parseCSV(csvOut.Stdout)
+			if err != nil {
+				viol("csv-log-unparseable", err.Error())
+				return
+			}
+			csvSum := map[string]*big.Rat{}
+			for _, rec := range recs {
+				if len(rec) != 3 {
+					viol("csv-log-unparseable", fmt.Sprintf("record %v", rec))
+					return
+				}
+				if csvSum[rec[1]] == nil {
+					csvSum[rec[1]] = new(big.Rat)
+				}
+				csvSum[rec[1]].Add(csvSum[rec[1]], dec(rec[2]))
+			}
+			fSum := map[string]*big.Rat{}
+			for _, line := range splitLines(fOut.Stdout) {
+				p := strings.Split(line, "\t")
+				if len(p) != 3 {
+					viol("reg-single-food-unparseable", line)
+					return
+				}
+				if fSum[p[1]] == nil {
+					fSum[p[1]] = new(big.Rat)
+				}
+				fSum[p[1]].Add(fSum[p[1]], dec(p[2]))
+			}
+			cmpMaps := func(rel string, a, bm map[string]*big.Rat, an, bn string) bool {
+				if len(a) != len(bm) {
+					viol(rel+"|food-sets-differ", fmt.Sprintf("%s has %d foods, %s has %d\n%s\n---\n%s\n---\n%s", an, len(a), bn, len(bm), qOut.Stdout, balOut.Stdout, csvOut.Stdout))
+					return false
+				}
+				for k, v := range a {
+					if o, ok := bm[k]; !ok || !ratEq(v, o) {
+						viol(rel+"|amounts-differ", fmt.Sprintf("food %s: %s says %s, %s says %v", k, an, v.FloatString(3), bn, o))
+						return false
+					}
+				}
+				return true
+			}
+			loggedNames := []string{}
+			for name := range q {
+				loggedNames = append(loggedNames, name)
+			}
+			// leaf amounts are per-food amounts only when no logged food is a path-prefix of another
+			if prefixFree(loggedNames) && !cmpMaps("quantity-vs-balance-leaves", q, leaves, "report quantity", "bal leaves") {
+				return
+			}
+			if !cmpMaps("quantity-vs-csv-log", q, csvSum, "report quantity", "sum of csv log rows") {
+				return
+			}
+			if !cmpMaps("quantity-vs-reg-single-food", q, fSum, "report quantity", "sum of `reg -f .` rows") {
+				return
+			}
+			// ---- unresolved = logged foods the book does not define
+			uOut := run("report", "unresolved")
+			if failed {
+				return
+			}
+			defined := map[string]bool{}
+			for _, r := range book {
+				defined[r.Name] = true
+			}
+			var wantU []string
+			for name := range q {
+				if !defined[name] {
+					wantU = append(wantU, name)
 				}
 			}
-			if st["Log records"] != fmt.Sprint(headings) || headings != len(lg) {
-				viol("stats-vs-print|log-record-count", fmt.Sprintf("stats says %q log records, print shows %d headings, the file has %d\n%s", st["Log records"], headings, len(lg), stOut.Stdout))
+			sort.Strings(wantU)
+			gotU := splitLines(uOut.Stdout)
+			sort.Strings(gotU)
+			if strings.Join(gotU, ",") != strings.Join(wantU, ",") {
+				viol("unresolved-vs-logged-undefined", fmt.Sprintf("report unresolved lists %v; logged foods (report quantity) that the book does not define: %v", gotU, wantU))
 				return
 			}
-			if st["Database records"] != fmt.Sprint(len(book)) {
-				viol("stats|database-record-count", fmt.Sprintf("stats says %q database records, the book has %d headings\n%s", st["Database records"], len(book), stOut.Stdout))
-				return
+			if period == 1 || sameDate {
+				// ---- summary d = register of day d
+				d := selDate
+				if d == "" {
+					d = "2021/01/24"
+				}
+				pf := pflags
+				pflags = nil
+				sOut := run("summary", d)
+				rAll := run("reg", "-b", d, "-e", d)
+				pflags = pf
+				if failed {
+					return
+				}
+				sd, err := parseSummary(sOut.Stdout)
+				if err != nil {
+					viol("summary-unparseable", err.Error())
+					return
+				}
+				rd, err := parseRegister(rAll.Stdout, "default")
+				if err != nil {
+					viol("register-unparseable", err.Error())
+					return
+				}
+				if summaryString(sd) != summaryString(rd) {
+					viol("summary-vs-register", fmt.Sprintf("summary %s:\n%s\nregister of that day:\n%s", d, sOut.Stdout, rAll.Stdout))
+					return
+				}
 			}
-			first, last := lg[0].Date, lg[len(lg)-1].Date
-			wantFirst := fmt.Sprintf("%s (%d days ago)", first, dayNumber(today)-dayNumber(first))
-			wantLast := fmt.Sprintf("%s (%d days ago)", last, dayNumber(today)-dayNumber(last))
-			if st["First record"] != wantFirst || st["Last record"] != wantLast || st["Today"] != today {
-				viol("stats|dates", fmt.Sprintf("stats prints first=%q last=%q today=%q, expected %q, %q, %q", st["First record"], st["Last record"], st["Today"], wantFirst, wantLast, today))
-				return
+			if period == 0 {
+				// ---- element-total rows = matching rows of the resolved book CSV
+				for _, el := range []string{"cal", "fat"} {
+					eOut := run("report", "element-total", el)
+					dOut := run("csv", "database-resolved")
+					if failed {
+						return
+					}
+					er, err := parseValueName(eOut.Stdout)
+					if err != nil {
+						viol("element-total-unparseable", err.Error())
+						return
+					}
+					recs, err := parseCSV(dOut.Stdout)
+					if err != nil {
+						viol("csv-resolved-unparseable", err.Error())
+						return
+					}
+					want := map[string]string{}
+					for _, rec := range recs {
+						if len(rec) == 3 && rec[1] == el {
+							want[rec[0]] = normNum(rec[2])
+						}
+					}
+					got := map[string]string{}
+					for _, r := range er {
+						got[r.Name] = r.Val
+					}
+					if fmt.Sprint(got) != fmt.Sprint(want) || len(er) != len(want) {
+						viol("element-total-vs-csv-resolved", fmt.Sprintf("element %s: element-total rows %v, rows of csv database-resolved %v", el, got, want))
+						return
+					}
+				}
+				// ---- stats: counts of headings, first/last date, day distances from --today
+				stOut := run("stats")
+				prOut := run("print")
+				if failed {
+					return
+				}
+				st := parseStats(stOut.Stdout)
+				headings := 0
+				for _, line := range splitLines(prOut.Stdout) {
+					if strings.HasSuffix(line, ":") && !strings.HasPrefix(line, " ") {
+						headings++
+					}
+				}
+				if st["Log records"] != fmt.Sprint(headings) || headings != len(lg) {
+					viol("stats-vs-print|log-record-count", fmt.Sprintf("stats says %q log records, print shows %d headings, the file has %d\n%s", st["Log records"], headings, len(lg), stOut.Stdout))
+					return
+				}
+				if st["Database records"] != fmt.Sprint(len(book)) {
+					viol("stats|database-record-count", fmt.Sprintf("stats says %q database records, the book has %d headings\n%s", st["Database records"], len(book), stOut.Stdout))
+					return
+				}
+				first, last := lg[0].Date, lg[len(lg)-1].Date
+				wantFirst := fmt.Sprintf("%s (%d days ago)", first, dayNumber(today)-dayNumber(first))
+				wantLast := fmt.Sprintf("%s (%d days ago)", last, dayNumber(today)-dayNumber(last))
+				if st["First record"] != wantFirst || st["Last record"] != wantLast || st["Today"] != today {
+					viol("stats|dates", fmt.Sprintf("stats prints first=%q last=%q today=%q, expected %q, %q, %q", st["First record"], st["Last record"], st["Today"], wantFirst, wantLast, today))
+					return
+				}
 			}
+			x.Obs(obs...)
+			x.Sample(map[string]interface{}{"book": book.String(), "log": lg.String(), "period_flags": pflags, "report_totals": totOut.Stdout})
 		}
-		x.Obs(obs...)
-		x.Sample(map[string]interface{}{"book": book.String(), "log": lg.String(), "period_flags": pflags, "report_totals": totOut.Stdout})
-	})
+	}
+	w.Explore("relations", ExploreOpts{ShardDepth: 7}, body(false))
+	w.Explore("relations-large-log", ExploreOpts{ShardDepth: 2}, body(true))
 }
